@@ -442,7 +442,13 @@ func (c *Float) Ident() string {
 	// Insert decimal point if not present.
 	//    3e4 -> 3.0e4
 	//    42  -> 42.0
-	s := c.X.Text('g', -1)
+	//
+	// Note: c.X is exactly representable as float64 here; format that value, as
+	// big.Float.Text('g', -1) on a low precision c.X may return a decimal of
+	// another floating-point value at power of two boundaries (e.g. 3.355443e+07
+	// for the float 33554432).
+	f, _ := c.X.Float64()
+	s := strconv.FormatFloat(f, 'g', -1, 64)
 	if !strings.ContainsRune(s, '.') {
 		if pos := strings.IndexByte(s, 'e'); pos != -1 {
 			s = s[:pos] + ".0" + s[pos:]
